@@ -594,6 +594,7 @@ fn run_shard(
         if line.starts_with("HARNESS-PANIC")
           || line.starts_with("REPORT")
           || line.contains("overflowed its stack")
+          || line.contains("AddressSanitizer")
           || line.contains("memory allocation")
           || line.contains("ALLOC-MONITOR")
         {
@@ -660,6 +661,7 @@ fn run_shard(
       b.iter()
         .filter(|l| {
           l.contains("overflowed its stack")
+            || l.contains("AddressSanitizer")
             || l.contains("memory allocation")
             || l.contains("ALLOC-MONITOR")
             || l.starts_with("HARNESS-PANIC")
@@ -673,8 +675,12 @@ fn run_shard(
     let kind = if let Some(k) = killed {
       k.to_string()
     } else if let Some(s) = sig {
-      if err_tail.iter().any(|l| l.contains("overflowed its stack")) {
+      if err_tail.iter().any(|l| l.contains("overflowed its stack") || l.contains("AddressSanitizer: stack-overflow")) {
         "stack-overflow".to_string()
+      } else if let Some(l) = err_tail.iter().find(|l| l.contains("ERROR: AddressSanitizer:")) {
+        // e.g. "==123==ERROR: AddressSanitizer: heap-buffer-overflow on address ..."
+        let kind = l.split("AddressSanitizer:").nth(1).unwrap_or("").split_whitespace().next().unwrap_or("report");
+        format!("asan-{}", kind)
       } else if err_tail
         .iter()
         .any(|l| l.contains("memory allocation") || l.contains("ALLOC-MONITOR"))
@@ -733,10 +739,18 @@ pub fn supervise(def: &'static PropDef, o: &RunOpts) -> (Summary, Vec<Value>) {
     .expect("current_exe")
     .to_string_lossy()
     .to_string();
-  let scratch = format!("{}/target/scratch/{}-{}", VERIF, def.id, std::process::id());
+  supervise_with(def, o, &exe, None)
+}
+
+/// `exe`: the binary whose `child` mode runs the cases (the sanitizer phase passes an
+/// instrumented build of this same harness); `cap`: upper bound on the number of cases
+pub fn supervise_with(def: &'static PropDef, o: &RunOpts, exe: &str, cap: Option<u64>) -> (Summary, Vec<Value>) {
+  let exe = exe.to_string();
+  let scratch = format!("{}/target/scratch/{}-{}{}", VERIF, def.id, std::process::id(), if cap.is_some() { "-san" } else { "" });
   std::fs::create_dir_all(&scratch).expect("mkdir scratch");
   // development aid: VH_CASES overrides the case count (never set by the registered commands)
-  let total = std::env::var("VH_CASES").ok().and_then(|s| s.parse().ok()).unwrap_or_else(|| (def.cases)(o.tier));
+  let total: u64 = std::env::var("VH_CASES").ok().and_then(|s| s.parse().ok()).unwrap_or_else(|| (def.cases)(o.tier));
+  let total = cap.map(|c| total.min(c)).unwrap_or(total);
   let nshards = ((def.shards)(o.tier)).min(total.max(1) as usize).max(1);
   let mut handles = vec![];
   for sh in 0..nshards {
